@@ -746,7 +746,8 @@ Theorem finish_nfa_lm_ok :
     /\ (forall w t, N0 w t -> LOutOK n2 t)
     /\ (N.of_nat (length (n_outputs n2)) <= N.of_nat (length outs))
     /\ (forall i, i < n_nstates n0 -> exists st st0, nget i (n_states n2) = Some st /\ nget i (n_states n0) = Some st0
-                                                   /\ n_edges st = n_edges st0 /\ n_output st = n_output st0).
+                                                   /\ n_edges st = n_edges st0 /\ n_output st = n_output st0)
+    /\ failof n2 ROOT = ROOT.
 Proof.
   unfold finish_nfa.
   destruct build_fails_lm_ok as (n1 & q & Hb & ST1 & R1 & F1 & Hnd & Hso & Hmem).
@@ -776,7 +777,7 @@ Proof.
   { apply N.eqb_neq. intros ->. destruct (proj1 (Hmem ROOT) (or_introl eq_refl)) as (w & Hwne & Hw). apply N0_root' in Hw. congruence. }
   exists n2. split; [exact Ho|].
   destruct (loi_links _ _ _ OI2) as (L1 & L2 & L3). destruct ST1 as (S1 & S2 & S3 & S4).
-  split; [congruence|]. split; [congruence|]. split; [|split; [|split; [|split]]].
+  split; [congruence|]. split; [congruence|]. split; [|split; [|split; [|split; [|split]]]].
   - intros s c. unfold tchild. specialize (L3 s). specialize (S4 s).
     destruct (nget s (n_states n2)), (nget s (n_states n1)), (nget s (n_states n0)); try contradiction; try reflexivity.
     destruct L3 as (-> & _). destruct S4 as (-> & _). reflexivity.
@@ -793,6 +794,8 @@ Proof.
   - intros i Hi. destruct (ti_wf _ _ _ _ _ _ T0 i Hi) as [st0 Hst0]. specialize (L3 i). specialize (S4 i). rewrite Hst0 in S4.
     destruct (nget i (n_states n1)) as [st1|]; [|contradiction]. destruct (nget i (n_states n2)) as [st|]; [|contradiction].
     exists st, st0. destruct L3 as (A1 & A2 & _). destruct S4 as (B1 & B2 & _). repeat split; congruence.
+  - transitivity (failof n1 ROOT); [|exact R1]. unfold NfaFails.failof. specialize (L3 ROOT). destruct (nget ROOT (n_states n2)), (nget ROOT (n_states n1)); try contradiction; [|reflexivity].
+    destruct L3 as (_ & _ & ->). reflexivity.
 Qed.
 
 End LM.
